@@ -74,6 +74,26 @@ struct OptDseState<'a, C: CellType> {
     written: HashSet<isize>,
 }
 
+/// Compute `1 + mul + mul^2 + ... + mul^(n-1)` using wrapping arithmetic. This is
+/// the factor by which a constant increment is multiplied if `x = mul * x + inc`
+/// is repeated `n` times. Note that `(mul^n - 1) / (mul - 1)` can not be used for
+/// this, since the division is not unique if `mul - 1` is even.
+fn wrapping_geometric_sum<C: CellType>(mul: C, n: C) -> C {
+    // Go over the bits of `n` starting with the most significant one. For the
+    // prefix `k` of `n` seen so far `sum = 1 + ... + mul^(k-1)` and `pow = mul^k`.
+    let mut sum = C::ZERO;
+    let mut pow = C::ONE;
+    for bit in (0..C::BITS).rev() {
+        sum = sum.wrapping_mul(pow.wrapping_add(C::ONE));
+        pow = pow.wrapping_mul(pow);
+        if n.wrapping_shr(bit).is_odd() {
+            sum = sum.wrapping_mul(mul).wrapping_add(C::ONE);
+            pow = pow.wrapping_mul(mul);
+        }
+    }
+    sum
+}
+
 impl<C: CellType> OptLoop<C> {
     /// Runs exactly as often as indicated by `expr` evaluated before the loop.
     fn expr(expr: Expr<C>) -> Self {
@@ -758,22 +778,16 @@ impl<C: CellType> OptRebuild<'_, C> {
                                 None,
                             ];
                         } else if inc.variables().all(|x| constant.contains(&x)) {
-                            if let Some(m) = mul
-                                .wrapping_pow(c)
-                                .wrapping_mul(mul)
-                                .wrapping_add(C::NEG_ONE)
-                                .wrapping_div(mul.wrapping_add(C::NEG_ONE))
-                            {
-                                return [
-                                    Some(
-                                        Expr::val(mul.wrapping_pow(c))
-                                            .mul(Expr::var(var))
-                                            .add(Expr::val(m).mul(inc)),
-                                    ),
-                                    None,
-                                    None,
-                                ];
-                            }
+                            let m = wrapping_geometric_sum(mul, c);
+                            return [
+                                Some(
+                                    Expr::val(mul.wrapping_pow(c))
+                                        .mul(Expr::var(var))
+                                        .add(Expr::val(m).mul(inc)),
+                                ),
+                                None,
+                                None,
+                            ];
                         }
                     }
                 }
